@@ -1421,7 +1421,8 @@ func phiLeavesA(v ssa.Value, at ssa.Instruction, fn func(leaf ssa.Value, fact fa
 				c, pos := stripNot(iff.Cond)
 				ex = []Fact{{iff, c, (pb.Succs[0] == b) == pos}}
 			}
-			rec(e, term, ex)
+			// the decisions of the outer merges stay true for this alternative: it flows through all of them
+			rec(e, term, append(append([]Fact(nil), extra...), ex...))
 		}
 		seen[ph] = false
 	}
